@@ -135,3 +135,48 @@ def _log_hook(module):
 
 
 POST_EXEC_HOOKS.append(_log_hook)
+
+
+def _concretizing(fn):
+    """wrapper for a standard-library function that needs real bytes / ints (C boundary): symbolic arguments are
+    concretised through the engine (one path per value, like formatting)"""
+    from . import core
+
+    def conc(v):
+        if isinstance(v, core.SBytes):
+            c = v.concrete()
+            if c is None:
+                c = bytes(core.ENG.concretize(core._e(x)) if x.__class__ is not int else x for x in v.items())
+            return c
+        if isinstance(v, core.SInt):
+            return core.ENG.concretize(v.e)
+        return v
+
+    def wrapper(*a, **k):
+        return fn(*[conc(x) for x in a], **{kk: conc(vv) for kk, vv in k.items()})
+    wrapper.__wrapped__ = fn
+    wrapper.__name__ = getattr(fn, '__name__', 'wrapped')
+    return wrapper
+
+
+def _stdlib_bytes_hook(module):
+    """ndn modules that import byte-consuming helpers from the standard library (urllib.parse.quote, base64, binascii)
+    get concretising wrappers - only in symbolic mode"""
+    if _installed != 'sym':
+        return
+    import urllib.parse as up
+    import base64
+    import binascii
+    targets = {}
+    for lib in (up, base64, binascii):
+        for name in dir(lib):
+            f = getattr(lib, name)
+            if callable(f) and not isinstance(f, type) and not name.startswith('_'):
+                targets[id(f)] = f
+    d = module.__dict__
+    for k, v in list(d.items()):
+        if id(v) in targets and targets[id(v)] is v:
+            d[k] = _concretizing(v)
+
+
+POST_EXEC_HOOKS.append(_stdlib_bytes_hook)
